@@ -3,6 +3,7 @@ package verifharness
 // C08 A stopped service answers 503 with the operator's message until resumed.
 
 import (
+	"bufio"
 	"fmt"
 	"html"
 	"math/rand/v2"
@@ -94,6 +95,93 @@ func TestC08(t *testing.T) {
 		}
 		synctest.Test(t, func(t *testing.T) { c08FirstDeploys(t, run, k, run.Rand(n+5000+k)) })
 	}
+	for k := 0; k < run.N(8, 96); k++ {
+		desc := map[string]any{"idx": k, "kind": "upload-in-progress-when-stopped", "side": []string{"rollout", "active"}[k%2], "rollout_stop_first": k%4 < 2, "cmd": []string{"stop", "pause"}[(k/4)%2]}
+		if !run.Mine(n+7000+k, desc) {
+			continue
+		}
+		synctest.Test(t, func(t *testing.T) { c08Upload(t, run, k, desc) })
+	}
+}
+
+// c08Upload: "nothing is forwarded to its targets" while stopped (paused), for a request that was
+// admitted before: a client is still uploading its body to a service that buffers requests (the
+// request has a target, nothing has been sent there yet) when the service is stopped (paused) with
+// a drain timeout of 200ms; the client finishes its upload a second after the command has returned.
+// The request belongs to the rollout side or to the active side, and `rollout stop` may have been
+// issued in between. No target sees a request between the command's return and resume.
+func c08Upload(t *testing.T, run *Run, idx int, desc any) {
+	w := NewWorld(t, WorldOpt{})
+	defer w.Close()
+	w.MaxClientLife = time.Minute
+	run.Eval()
+	const svc = "svc"
+	rolloutSide, stopRolloutFirst, cmd := idx%2 == 0, idx%4 < 2, []string{"stop", "pause"}[(idx/4)%2]
+	w.AddTarget("a1-t0:80", nil)
+	w.AddTarget("r1-t0:80", nil)
+	to := DefTO
+	to.BufferRequests, to.MaxMemoryBufferSize = true, 1<<20
+	so := server.ServiceOptions{TLSRedirect: true, Hosts: []string{"c08.example"}}
+	if c := w.Deploy(svc, []string{"a1-t0:80"}, so, to, 5*time.Second, time.Second); c.Err != "" {
+		run.Inconclusive("setup failed: %s", c.Err)
+		return
+	}
+	if c := w.RolloutDeploy(svc, []string{"r1-t0:80"}, 5*time.Second, time.Second); c.Err != "" {
+		run.Inconclusive("setup failed: %s", c.Err)
+		return
+	}
+	if c := w.RolloutSet(svc, 100, nil); c.Err != "" {
+		run.Inconclusive("setup failed: %s", c.Err)
+		return
+	}
+	conn, err := w.connect(false, "c08.example")
+	if err != nil {
+		run.Inconclusive("connect: %v", err)
+		return
+	}
+	defer conn.Close()
+	body := c13Bytes("c08up", idx, 3000)
+	cookie := ""
+	if rolloutSide {
+		cookie = "Cookie: kamal-rollout=u1\r\n"
+	}
+	fmt.Fprintf(conn, "POST /upload HTTP/1.1\r\nHost: c08.example\r\nX-Request-Id: up%d\r\n%sContent-Length: %d\r\nConnection: close\r\n\r\n", idx, cookie, len(body))
+	conn.Write(body[:1000])
+	time.Sleep(time.Second)
+	if stopRolloutFirst {
+		w.RolloutStop(svc)
+		time.Sleep(500 * time.Millisecond)
+	}
+	var rec *CmdRec
+	if cmd == "stop" {
+		rec = w.Stop(svc, 200*time.Millisecond, "closed")
+	} else {
+		rec = w.Pause(svc, 200*time.Millisecond, time.Minute)
+	}
+	if rec.Err != "" || rec.Panic != "" {
+		run.Violate("command-failed:"+cmd, fmt.Sprintf("%s failed: %s %s", cmd, rec.Err, rec.Panic), desc, func() []string { return w.Trace(100) })
+		return
+	}
+	time.Sleep(time.Second)
+	conn.Write(body[1000:])
+	status := -1
+	if resp, rerr := readRawResponse(bufio.NewReader(conn), "POST"); rerr == nil {
+		status = resp.Status()
+	}
+	conn.Close()
+	time.Sleep(3 * time.Second)
+	tResume := w.Now()
+	w.Resume(svc)
+	w.Wait()
+	for _, tn := range []string{"a1-t0:80", "r1-t0:80"} {
+		for _, q := range w.Target(tn).ReqLog() {
+			if q.Recv > rec.Ret+Eps && q.Recv < tResume {
+				run.Violate("forwarded-while-"+map[string]string{"stop": "stopped", "pause": "paused"}[cmd]+":upload-in-progress", fmt.Sprintf("%s returned at %v; at %v target %s received the request of a client that was still uploading when the command was issued (it finished its upload at %v and was answered %d); the next resume came at %v", cmd, rec.Ret, q.Recv, tn, rec.Ret+time.Second, status, tResume), desc, func() []string { return w.Trace(120) })
+				return
+			}
+		}
+	}
+	run.Class(fmt.Sprintf("upload|%s|rollout-side=%v|rollout-stop-first=%v|status=%d", cmd, rolloutSide, stopRolloutFirst, status))
 }
 
 // c08FirstDeploys: "a service's running, paused or stopped state is unaffected by redeploying it",
